@@ -105,6 +105,10 @@ def _gen_settings(rng, name):
     if name in SALTED and rng.random() < 0.4:
         kind = SALTED[name]
         kw[rng.choice(["salt_size", "salt_size", "default_salt_size"])] = _num(rng, rng.choice([0, 1, 2, 4, 8, 16, 22, 31, 64, 1024, 5000, -1]))
+    if SALTED.get(name) == "chars" and rng.random() < 0.12:
+        # a FIXED salt (text or bytes): legal characters, or one character outside the format's salt alphabet
+        sv = rng.choice(["abcdefgh", "ab.d/fgh", "ab$cd", "ab cd", "ab:cd", "abéd"])
+        kw["salt"] = sv if rng.random() < 0.5 or not sv.isascii() else {"b": sv}  # {"b": ...}: handed over as bytes
     if name in IDENTS and rng.random() < 0.5:
         kw["ident"] = rng.choice(IDENTS[name])
     if name == "bcrypt_sha256" and rng.random() < 0.4:
@@ -196,6 +200,8 @@ def generate(rng, prop, tier):
         first, second = rng.choice([(True, False), (True, False), (False, True), ("true", "false")])
         long_pw = "L" * 80 if hashers[g] != "des_crypt" else rng.choice(["123456789", "pässwörd"])
         cost = {"rounds": COST[hashers[g]][0]} if hashers[g] in COST else {}
+        if hashers[g] == "bcrypt" and rng.random() < 0.6:
+            cost["ident"] = rng.choice(["2", "2", "2a", "2y", "2b"])  # (the legacy variants prepare the password differently)
         ops.extend([{"op": "derive", "client": c, "parent": g, "settings": dict(cost, truncate_error=first), "relaxed": False},
                     {"op": "derive", "client": c, "parent": nnodes, "settings": {"truncate_error": second}, "relaxed": False},
                     {"op": "hash", "client": c, "node": nnodes + 1, "pw": long_pw},
@@ -445,6 +451,21 @@ class _W:
                         c.variant_unknown = True
                     else:
                         c.variant[k] = max(1, kw[k]) if relaxed else kw[k]
+        if "salt" in kw and base != "cisco_type7":
+            sv = kw["salt"]["b"] if isinstance(kw["salt"], dict) else kw["salt"]
+            H0 = getattr(self.ph, base)
+            legal = all(ch in H0.salt_chars for ch in sv)
+            if not legal:
+                return "must-raise", c  # (relaxed=True repairs a salt's SIZE, never its alphabet)
+            if isinstance(kw["salt"], dict) and not relaxed:
+                return "must-raise", c  # a bytes salt for a text-salt format is a type error unless relaxed=True decodes it
+            smin_, smax_ = getattr(H0, "min_salt_size", None), getattr(H0, "max_salt_size", None)
+            if (smin_ is not None and len(sv) < smin_) or (smax_ is not None and len(sv) > smax_):
+                verdict = "either" if verdict == "ok" else verdict
+                c.variant_unknown = True
+            else:
+                c.variant["fixed_salt"] = sv
+                c.salt_size = None  # (a fixed salt is used as given; the configured salt size no longer decides)
         if "salt" in kw and base == "cisco_type7":
             v = kw["salt"]
             if 0 <= v <= 52:
@@ -501,7 +522,7 @@ class _W:
                               lambda: f"{where}: {base} window [{n.lo}, {n.hi}] default {n.d}: hash {h!r} has cost {c}", hasher=base)
                 r = _call(n.H.needs_update, h)
                 ctx.check(r == ("ok", False), "C09", "own-hash-needs-update", f"{where}: {h!r} -> {r[:2]}", hasher=base)
-        if base in SALTED and n.salt_size is not None and SALTED[base] != "fixed" and not n.dirty:
+        if base in SALTED and n.salt_size is not None and SALTED[base] != "fixed" and not n.dirty and "fixed_salt" not in n.variant:
             ex = extract(h, only=(base,))
             if ex is not None:
                 ctx.check(len(ex[2]) == n.salt_size, "C09", "salt-size-differs-from-settings",
@@ -520,6 +541,12 @@ class _W:
                 want = n.variant.get(k, default[k])
                 ctx.check(got == want, "C09", "variant-differs-from-settings",
                           lambda: f"{where}: {base} configured {k}={want!r} (settings in force {n.variant}): hash {h!r} carries {got!r}", hasher=base, setting=k)
+        if "fixed_salt" in n.variant and not n.dirty and not getattr(n, "variant_unknown", False):
+            ex = extract(h, only=(base,))
+            if ex is not None:
+                got_salt = ex[2] if isinstance(ex[2], str) else None
+                ctx.check(got_salt is None or got_salt == n.variant["fixed_salt"], "C09", "variant-differs-from-settings",
+                          lambda: f"{where}: {base} configured salt={n.variant['fixed_salt']!r}: hash {h!r} carries {got_salt!r}", hasher=base, setting="salt")
         if base == "cisco_type7" and "salt" in n.variant and not n.dirty:
             ctx.check(h[:2].isdigit() and int(h[:2]) == n.variant["salt"], "C09", "variant-differs-from-settings",
                       lambda: f"{where}: cisco_type7 configured salt={n.variant['salt']}: hash {h!r} carries {h[:2]!r}", hasher=base, setting="salt")
@@ -544,6 +571,8 @@ class _W:
         verdict, child = self.model_using(parent, kw, op["relaxed"])
         if op["relaxed"]:
             kw["relaxed"] = True
+        if isinstance(kw.get("salt"), dict):
+            kw["salt"] = kw["salt"]["b"].encode("ascii")  # (the program file holds text; this setting is handed over as bytes)
         r = _call(parent.H.using, **kw)
         after = self.snapshots(skip=())
         # (4) neither the parent nor anybody else changed -- whether the call succeeded or not
